@@ -49,10 +49,10 @@ def make_files():
     written under c10_ names atomically because other checks rewrite F1.ogg/F2.ogg concurrently."""
     recipe = {
         'F1': [zoo.link('A', 1, 'natural')],
-        'F2': [zoo.link('A', 100, '3'), zoo.link('B', 101, 'flush'), zoo.link('C', 102, '2')],
-        'S': [vlib.mkzoo('c10_S', rate=8000, ch=1, n=600, q=0.3, sig='mix', serial=77, pages='flush', tag='S')],
         'S2': [vlib.mkzoo('c10_S2a', rate=8000, ch=1, n=500, q=0.3, sig='mix', serial=78, pages='2', tag='S2a'),
                vlib.mkzoo('c10_S2b', rate=11025, ch=2, n=400, q=0.2, sig='sine', serial=79, pages='flush', tag='S2b')],
+        'F2': [zoo.link('A', 100, '3'), zoo.link('B', 101, 'flush'), zoo.link('C', 102, '2')],
+        'S': [vlib.mkzoo('c10_S', rate=8000, ch=1, n=600, q=0.3, sig='mix', serial=77, pages='flush', tag='S')],
         # > 64 KiB: the seekable open hops back CHUNKSIZE and has to hunt for a page boundary in the middle of the file
         'BIG': [vlib.mkzoo('c10_BIG', rate=44100, ch=2, n=110000, q=0.7, sig='noise', serial=90, pages='natural', tag='BIG')],
     }
@@ -216,7 +216,8 @@ def pair_rows_window(r, fname, path, win_a, win_b=None):
 def run(tier):
     chk = vlib.Check(PID, tier, 'fault_enumeration')
     thorough = tier == 'thorough'
-    deadline = chk.t0 + (140 if not thorough else 21 * 60)
+    # internal deadline (seconds); C10_DEADLINE_S overrides it for measurement runs on an overloaded machine
+    deadline = chk.t0 + float(os.environ.get('C10_DEADLINE_S') or (140 if not thorough else 19 * 60))
     vlib.build('plain')
     exe = vlib.harness('plain', HARNESS)
     files = make_files()
@@ -251,7 +252,7 @@ def run(tier):
     c1 += [R.case(f, p, 'i', 'b4096', c, []) for f in big for p in ('s', 'n') for c in (CAPS_ALL if thorough else CAPS_SMALL[1:])]
     # file > CHUNKSIZE: page hunting after the backward hop of the seekable open under fragmentation
     c1 += [R.case('BIG', p, 'f', 'c4096', c, []) for p in PATHS for c in (sorted(set(CAPS_SMALL + list(range(1, 2049)))) if thorough and p == 's' else CAPS_SMALL)]
-    phase('caps', 'cap', c1, 'c', 30000)
+    phase('caps', 'cap', c1, 'c', 20000)
 
     # ---- phase 1b: request-length schedules x caps (cheap, so before the big cut enumerations)
     c3 = []
@@ -259,7 +260,7 @@ def run(tier):
         for (p, a, q) in combos():
             for c in (CAPS_SMALL if not thorough else [0] + CAPS_ALL):
                 c3.append(R.case(f, p, a, q, c, []))
-    phase('req_x_caps', 'req', c3, 'r', 30000)
+    phase('req_x_caps', 'req', c3, 'r', 20000)
 
     # ---- phase 2: every 1-cut x path x file
     c2 = [R.case(f, p, 'f', 'c4096', 0, [b]) for f in big + ['S'] for p in PATHS for b in range(1, files[f]['len'])]
@@ -268,7 +269,7 @@ def run(tier):
     c2 += [R.case('BIG', 's', 'f', 'c4096', 0, [b]) for b in range(hunt[0], hunt[1])]
     if thorough:
         c2 += [R.case('BIG', 's', 'f', 'c4096', 0, [b]) for b in range(LB - 4096, LB)]
-    phase('cut1', 'cut1', c2, 'k', 30000)
+    phase('cut1', 'cut1', c2, 'k', 20000)
 
     # ---- phase 3: 2-cut pairs inside declared windows
     S = files['S']
@@ -290,14 +291,14 @@ def run(tier):
                 c4 += pair_rows_window(R, f, p, w)[0]
     if thorough:
         windows['S:W_A x W_B'] = [list(W_A), list(W_B)]
-    phase('cut2_windows', 'cut2', c4, 'w', 1500)
+    phase('cut2_windows', 'cut2', c4, 'w', 600)
 
     # ---- phase 4b: request-length schedules x every 1-cut
     c3b = []
     for f in (['S'] if not thorough else big + ['S']):
         for (p, a, q) in combos():
             c3b += rows(R, f, p, a, q, 0, [], 1, files[f]['len'])
-    phase('req_x_cut1', 'req', c3b, 'q', 400)
+    phase('req_x_cut1', 'req', c3b, 'q', 200)
     # link-boundary neighbourhood of the chains under every request schedule (quick; thorough has the full product above)
     if not thorough:
         c3c = []
